@@ -156,6 +156,21 @@ def run(ctx):
            detail={"array_written": sorted(names.get(i_) for i_ in arr_ids), "length_derived_from_iterator_over": sorted(str(names.get(i_)) for i_ in src_arrays)},
            what="first_equal_index trims array `%s` to a length taken from the iterator over `%s`" % (sorted(names.get(i_) for i_ in arr_ids), sorted(str(names.get(i_)) for i_ in src_arrays)))
 
+    # ---- R12.14: the loader's own message constructor follows rtosc_amessage's element discipline
+    ctx.rule("R12.14", "LOADER-ARG-SLOTS: the loop of dispatch_printed_messages that rebuilds a message from the scanned values fills the rtosc_arg_t array it hands to rtosc_amessage with one element per value-carrying tag - "
+             "the discipline rtosc_amessage's own argument index follows (no element for T, F, N, I) - checked on every tag sequence of length 1..3: a line such as `/a true \"x\"` must be rebuilt and rejected, not crash the loader")
+    from ..rules import argslots as AS
+    cons14 = AS.consumer_table(ctx.ast("rtosc.c"))
+    prods14 = [p_ for p_ in AS.producers(us) if p_[0] == "dispatch_printed_messages"]
+    ctx.require(len(prods14) == 1, "R12.14: the loop of dispatch_printed_messages that fills type string and values was not found (%d)" % len(prods14))
+    q14, fnp14, call14, tid14, vid14, lp14 = prods14[0]
+    ptab14, _names14 = AS.producer_table(us, fnp14, tid14, vid14, lp14)
+    bad14 = AS.mismatches(cons14, ptab14)
+    ctx.ob("R12.14", "dispatch_printed_messages", not bad14, site=A.where(lp14),
+           detail={"rtosc_amessage_consumes_an_element_for": "".join(t for t in AS.TAGS if cons14[t]), "sequences": sum(15 ** n for n in (1, 2, 3)), "mismatches": bad14[:4]},
+           key="R12.14:dispatch_printed_messages",
+           what="dispatch_printed_messages stores argument values in other array elements than rtosc_amessage reads them from: %s" % bad14[:2])
+
     from . import C13
     C13.per_message_state(ctx, us, "R12.5")
     # ---- R12.6
